@@ -620,13 +620,22 @@ type tags struct {
 func (t tags) Len() int      { return len(t.t) }
 func (t tags) Swap(i, j int) { t.t[i], t.t[j] = t.t[j], t.t[i] }
 func (t tags) Less(i, j int) bool {
+	// Order by magnitude; values of equal magnitude and opposite sign
+	// (as found in profile diffs) are ordered by sign so that the
+	// comparison stays a strict weak order.
 	if !t.flat {
+		if a, b := abs64(t.t[i].Cum), abs64(t.t[j].Cum); a != b {
+			return a > b
+		}
 		if t.t[i].Cum != t.t[j].Cum {
-			return abs64(t.t[i].Cum) > abs64(t.t[j].Cum)
+			return t.t[i].Cum > t.t[j].Cum
 		}
 	}
+	if a, b := abs64(t.t[i].Flat), abs64(t.t[j].Flat); a != b {
+		return a > b
+	}
 	if t.t[i].Flat != t.t[j].Flat {
-		return abs64(t.t[i].Flat) > abs64(t.t[j].Flat)
+		return t.t[i].Flat > t.t[j].Flat
 	}
 	return t.t[i].Name < t.t[j].Name
 }
@@ -1145,8 +1154,13 @@ func (el edgeList) Len() int {
 }
 
 func (el edgeList) Less(i, j int) bool {
+	// Order by magnitude, then by sign: weights of equal magnitude and
+	// opposite sign must not compare as equal in both directions.
+	if a, b := abs64(el[i].Weight), abs64(el[j].Weight); a != b {
+		return a > b
+	}
 	if el[i].Weight != el[j].Weight {
-		return abs64(el[i].Weight) > abs64(el[j].Weight)
+		return el[i].Weight > el[j].Weight
 	}
 
 	from1 := el[i].Src.Info.PrintableName()
